@@ -37,6 +37,9 @@ DIAGSETS = {
     'raise+fail': [{'raise': 1}, {'emit': [[2, True, False]], 'af': False}],
     'garbage': [{'garbage': 1}],
     'internal+alwaysfail': [{'emit': [[0, False, True]], 'af': False}, {'emit': [[3, False, False]], 'af': True}],
+    # two instances of one diagnoser class (same name, same result type), the second one reports the failure
+    'class-pass+class-fail': [{'emit': [[1, False, False]], 'af': False, 'cls': True}, {'emit': [[2, True, False]], 'af': False, 'cls': True}],
+    'class-fail+class-pass': [{'emit': [[2, True, False]], 'af': False, 'cls': True}, {'emit': [[1, False, False]], 'af': False, 'cls': True}],
 }
 _BASE = {'threads': None}
 
@@ -170,7 +173,7 @@ def table(tier):
   for o in optsets:
     for b1 in one:
       for b2 in one:
-        for ds in ('none', 'pass', 'fail', 'raise', 'raise+fail'):
+        for ds in ('none', 'pass', 'fail', 'raise', 'raise+fail', 'class-pass+class-fail'):
           for pos in ('first', 'after_fail', 'in_subtest', 'in_teardown'):
             yield {'o': o, 'beh': [list(b1), list(b2)], 'diag': ds, 'pos': pos, 'nmeas': 1, 'allow_unset': False, 'sof': None}
 
